@@ -1,0 +1,48 @@
+//go:build verif
+
+package internal
+
+import (
+	"encoding/xml"
+)
+
+// Exports for the verification harness in /verif (build tag "verif" only).
+// They add no behaviour: each only reads or builds values through fields and
+// functions that other packages cannot reach.
+
+// VerifRawFields returns the fields of a RawXMLValue.
+func VerifRawFields(val *RawXMLValue) (tok xml.Token, children []RawXMLValue, out interface{}) {
+	return val.tok, val.children, val.out
+}
+
+// VerifNewRaw builds a RawXMLValue from its fields.
+func VerifNewRaw(tok xml.Token, children []RawXMLValue, out interface{}) RawXMLValue {
+	return RawXMLValue{tok: tok, children: children, out: out}
+}
+
+// VerifReaderFrame is the state of one rawXMLValueReader.
+type VerifReaderFrame struct {
+	Start, End bool
+	Child      int
+}
+
+// VerifReaderState returns the state of a reader obtained from
+// RawXMLValue.TokenReader, followed by the states of its chain of child
+// readers.
+func VerifReaderState(tr xml.TokenReader) []VerifReaderFrame {
+	var l []VerifReaderFrame
+	for tr != nil {
+		r, ok := tr.(*rawXMLValueReader)
+		if !ok || r == nil {
+			break
+		}
+		l = append(l, VerifReaderFrame{Start: r.start, End: r.end, Child: r.child})
+		tr = r.childReader
+	}
+	return l
+}
+
+// VerifValueXMLName exposes valueXMLName.
+func VerifValueXMLName(v interface{}) (xml.Name, error) {
+	return valueXMLName(v)
+}
